@@ -9,7 +9,7 @@ import csv
 import os
 import re
 
-from common import Quiet, coq_bad, known_open, listlit, oulit, pmap, ulit
+from common import Quiet, coq_bad, known_open, listlit, oulit, pmap, ulit  # noqa
 
 TRUSTED_EXTRA = [
     "Python's csv.writer/csv.reader and text-mode open() are modelled by Csv/CsvModel.v (QUOTE_MINIMAL writer, universal newlines, the reader's state machine) and compared with the real ones on every generated file of this run",
@@ -203,12 +203,40 @@ def run(ctx):
                 glits.append(case_lit((j["files"]["f"], ",", '"', [], None), fake))
                 gsrc.append((j, ri, o["method"], m))
     gbad = sorted(coq_bad(ctx, "c06g", "Csv.CsvModel Data.DataModel Harness.C06Cmp", "c06case", glits, ["c06_spec"], chunk=250)["c06_spec"]) if glits else []
+    # every member's collected lines (the rewriter's too) against the model of the record hand-over (Mgr/LinePass.v)
+    KIND = {'append("extra", "x")': f"(RwAppend ustring {ulit('x')})", 'reset_headers()': "(RwResetHeaders ustring)", 'collect(0)': "(RwCollect0 ustring)",
+            'replace(0, "zz")': f"(RwReplace0 ustring {ulit('zz')})", 'yes()': "(RwNone ustring)"}
+    mlits, msrc = [], []
+    for j, r in zip(gjobs, gres):
+        if r["setup_exc"] or j["rewriter"] not in KIND:
+            continue
+        recs = [row for row in j["files"]["f"] if row]
+        for ri, o in enumerate(r["runs"]):
+            if o["exc"] or len(o["members"]) != 3 or not all(isinstance(m["lines"], list) for m in o["members"]):
+                continue
+            kinds = ["(RwNone ustring)" if str(m["identity"]).startswith("ro") else KIND[j["rewriter"]] for m in o["members"]]
+            mlits.append(f"mkC06G [{'; '.join(kinds)}] {'true' if 'by_line' in o['method'] else 'false'} {rows_lit(recs)} {listlit([m['lines'] for m in o['members']], rows_lit)}")
+            msrc.append((j, ri, o))
+    mbad = coq_bad(ctx, "c06m", "Csv.CsvModel Data.DataModel Mgr.LinePass Harness.C06Cmp", "c06gcase", mlits, ["c06g_agree false", "c06g_agree true"], chunk=100) if mlits else {"c06g_agree false": set(), "c06g_agree true": set()}
+    m_shared = sorted(i for i in mbad["c06g_agree false"] if i not in mbad["c06g_agree true"])
+    m_other = sorted(i for i in mbad["c06g_agree false"] if i in mbad["c06g_agree true"])
+    if m_shared and not gbad:
+        j, ri, o = msrc[m_shared[0]]
+        gfail.append({"kind": "in a breadth-first run the members are handed the record as rewritten / projected by the members before them (the implementation agrees with Mgr/LinePass.v only "
+                              "with deviation switch q_share on: fixed finding D28 is back; witness C06_byline_shared_refuted)", "group": j["groups"]["g"], "rows": j["files"]["f"], "run": ri,
+                      "method": o["method"], "collected": {m["identity"]: m["lines"][:4] for m in o["members"]}})
     for i in gbad:
         j, ri, meth, m = gsrc[i]
         gfail.append({"kind": "a member that rewrites nothing did not get the file's records / first-record headers in a named-paths run where another member rewrites its own",
                       "group": j["groups"]["g"], "rows": j["files"]["f"], "run": ri, "method": meth, "member": m["identity"], "headers_seen": m["headers"], "lines_seen": m["lines"][:4]})
     if gfail:
         ctx.violation("group", {"what": gfail[0]["kind"], "case": gfail[0], "more": gfail[1:3], "failures": len(gfail)})
+    elif m_other:
+        j, ri, o = msrc[m_other[0]]
+        ctx.violation("correspondence", {"what": "correspondence Mgr/LinePass.v vs next_by_line / collect_paths no longer checks (Harness/C06Cmp.c06g_agree): what the members of a group with a "
+                                                 "rewriting member collected; theorems C06_byline_* are about the model only",
+                                         "disagreeing_case": {"group": j["groups"]["g"], "rows": j["files"]["f"], "run": ri, "method": o["method"],
+                                                              "collected": {m["identity"]: m["lines"][:4] for m in o["members"]}}}, no_input=True)
     nontriv = {repr(j[:3]) for j, o in zip(jobs, res) if not o["exc"] and len(o["lines"]) >= 2 and
                any(any(ch in c for ch in (j[1], j[2], "\n")) for r in j[0] for c in r)}
     ctx.coverage.update({
@@ -218,7 +246,7 @@ def run(ctx):
                 "per probe; 60% of files have an identifier-like (decorated) header row so that #name probes exist. Non-trivial = distinct file with >= 2 returned lines and a cell "
                 "containing the delimiter, the quote char or LF.",
         "samples": [describe(jobs[0], res[0]), describe(jobs[len(jobs) // 2], res[len(jobs) // 2])],
-        "group_runs": sum(len(r["runs"]) for r in gres), "group_member_comparisons": len(glits),
+        "group_runs": sum(len(r["runs"]) for r in gres), "group_member_comparisons": len(glits), "group_runs_against_linepass_model": len(mlits),
         "group_rule": "named-paths groups of two read-only members and one member that rewrites its own lines/headers (append, reset_headers, collect(0), replace) in random order, run twice "
                       "(serial, then serial or breadth-first, same or new CsvPaths): the read-only members' lines and headers against the file by c06_spec",
         "traces_validated_against_impl": len(jobs) - len(agree_bad),
